@@ -48,16 +48,19 @@ impl Key {
             .unwrap_or_default()
     }
 
-    pub fn from_file_name(name: &str) -> Self {
-        let key = name.trim_end_matches(".md").to_string();
-
+    // the key as it is: a key of the state, of the graph or of a link already read
+    pub fn name(name: &str) -> Self {
         Key {
-            relative_path: Arc::new(key),
+            relative_path: Arc::new(name.to_string()),
         }
     }
 
+    pub fn from_file_name(name: &str) -> Self {
+        Key::name(strip_md(name))
+    }
+
     pub fn from_rel_link_url(url: &str, relative_to: &str) -> Self {
-        let key = url.trim_end_matches(".md").to_string();
+        let key = strip_md(url).to_string();
         let path = RelativePath::new(relative_to)
             .join_normalized(key)
             .to_string();
@@ -86,8 +89,7 @@ impl Key {
 
     pub fn from_path(path: &PathBuf) -> Key {
         let name = path.file_name().unwrap().to_string_lossy().to_string();
-        let key = name.trim_end_matches(".md").to_string();
-        Key::from_file_name(&key)
+        Key::from_file_name(&name)
     }
 }
 
@@ -131,6 +133,22 @@ pub type Title = String;
 
 pub trait InlinesContext: Copy {
     fn get_ref_title(&self, key: &Key) -> Option<String>;
+}
+
+// A file name or a link url names a note with or without the extension: `x.md` and `x` are the
+// note `x`. Only one extension is taken off, `x.md.md` is the file of the note `x.md`.
+pub fn strip_md(name: &str) -> &str {
+    name.strip_suffix(".md").unwrap_or(name)
+}
+
+// The url a link to a note is written with. A note whose own name ends in `.md` always gets an
+// extension, without it the url would be read back (`strip_md`) as another note.
+pub fn ref_url(url: &str, extension: &str) -> String {
+    if extension.is_empty() && url.ends_with(".md") {
+        format!("{}.md", url)
+    } else {
+        format!("{}{}", url, extension)
+    }
 }
 
 pub fn is_ref_url(url: &str) -> bool {
